@@ -3,10 +3,13 @@
 
   One blocked caller thread and one "loss" thread (the transport thread running the tail of
   `Transport.run()` after an exception/EOF, or the application thread inside `Transport.close()`),
-  interleaved by an arbitrary schedule.  Each API is a row of `apiTable`: how it waits and which
-  wake-ups each shutdown path delivers to the object it waits on (read off the code, see the
-  comments on the rows; tied to the code by the behavioural correspondence in pv/props/c13.py).
+  interleaved by an arbitrary schedule.  Each API is a row of `apiTable`: how it waits (read off the
+  code, see the comments on the rows; tied to the code by the behavioural correspondence in
+  pv/props/c13.py) and which wake-ups each shutdown path delivers to the object it waits on, IN THE
+  ORDER THE SOURCE HAS THEM: the two shutdown sequences are regenerated from the AST on every run
+  (`PV.Generated.C13.runTail`, `closeSeq`, `eventClearGuarded`; pv/lib_lockdisc.py).
 -/
+import PV.Generated.C13
 namespace PV.Blocking
 
 /-- the two ways a connection ends, as far as wake-ups are concerned -/
@@ -31,6 +34,14 @@ inductive Wait
   | cvLoop     -- `while not <flag>: Condition.wait(None)`
   deriving DecidableEq, Repr
 
+/-- does the call re-arm (clear) the level-triggered object between its openness check and its wait?
+    (`Channel._event_pending()` before a channel request is sent) -/
+inductive Clear
+  | none
+  | guarded     -- under the channel lock and only while the channel is open: a set-for-good event stays set
+  | unguarded   -- `self.event.clear()` whatever happened since the openness check
+  deriving DecidableEq, Repr
+
 structure Api where
   name : String
   wait : Wait
@@ -38,10 +49,11 @@ structure Api where
   precheck : Bool
   /-- every wake-up re-tests `active` and leaves the loop when it is false -/
   loopChecksActive : Bool
+  clear : Clear := .none
   /-- what the loss thread does, per path, as seen from this call's wait object -/
   prog : Loss → List LAct
 
-inductive Pc | start | waiting | done
+inductive Pc | start | checked | waiting | done
   deriving DecidableEq, Repr
 
 structure St where
@@ -73,6 +85,11 @@ def stepCaller (api : Api) (s : St) : St :=
   | .start =>
     if api.precheck && !s.active then { s with pc := .done }
     else if (api.wait == .event || api.wait == .cvLoop) && s.flag then { s with pc := .done }
+    else if api.clear != .none then { s with pc := .checked }
+    else { s with pc := .waiting, notified := false }
+  | .checked =>
+    -- `_event_pending()`, then the request is sent (dropped silently on a dead transport), then the wait
+    if api.clear == .unguarded then { s with flag := false, pc := .waiting, notified := false }
     else { s with pc := .waiting, notified := false }
   | .waiting =>
     if !wakeable api s then s            -- still blocked in the C-level wait
@@ -100,13 +117,51 @@ def run (api : Api) (l : Loss) (s : St) (sch : List Tid) : St := sch.foldl (step
 def returnsPromptly (api : Api) (_l : Loss) (s : St) : Bool :=
   (stepCaller api (stepCaller api s)).pc == .done
 
-/-! ### the rows (after the `fix:` commits for accept / ensure_session) -/
+/-! ### the rows (after the `fix:` commits for accept / ensure_session / channel requests)
 
-/-- `run()` tail on remote loss: `chan._unlink()` for all, then (active was true)
-    `active=False; completion_event.set(); auth_handler.abort(); channel_events set; accept cv notify` -/
+The wake-ups come from the generated shutdown sequences.  `runTail` on the clean tree reads
+`other, unlink_channels, [set_inactive, packetizer_close, completion_set, auth_abort, channel_events_set],
+accept_notify_all, sock_close` (bracketed = inside `if self.active:`); `closeSeq` reads
+`set_inactive, packetizer_close, join_thread, run_tail, unlink_channels, sock_close` where `run_tail` marks the
+point from which the transport thread leaves its loop and runs its tail (with `active` already false). -/
+
+/-- what kind of object the call waits on -/
+inductive Kind
+  | transportPoll  -- a transport-level event polled every 0.1 s together with `active`
+  | chanEvent      -- `Channel.event` / `status_event`: set by `_set_closed()` (via `_unlink()`)
+  | chanCv         -- a condition variable of the channel: `_set_closed()` sets the flag and `notify_all()`s
+  | accept         -- `server_accept_cv`
+  | sessionPoll    -- polls nothing but `active`
+  deriving DecidableEq, Repr
+
+/-- the effect of one shutdown event on the object a call of kind `k` waits on.  `accept_notify_one`
+    (a `notify()` that may go to another waiter) gives this caller nothing. -/
+def actsOf (k : Kind) (ev : String) : List LAct :=
+  if ev == "set_inactive" then [.setInactive] else
+  match k with
+  | .transportPoll =>
+    if ev == "completion_set" || ev == "auth_abort" || ev == "channel_events_set" then [.setFlag] else []
+  | .chanEvent => if ev == "unlink_channels" then [.setFlag] else []
+  | .chanCv => if ev == "unlink_channels" then [.setFlag, .notify] else []
+  | .accept => if ev == "accept_notify_all" then [.notify] else []
+  | .sessionPoll => []
+
+/-- remote loss: the tail of `run()` as it stands in the source -/
+def remoteEvents (tail : List (String × Bool)) : List String := tail.map (·.1)
+
+/-- local `close()`: its own statements, with the part of the `run()` tail that is not under
+    `if self.active:` spliced in where the transport thread is released -/
+def localEvents (tail : List (String × Bool)) (cl : List String) : List String :=
+  cl.flatMap fun e => if e == "run_tail" then (tail.filter (fun x => !x.2)).map (·.1) else [e]
+
+def progOf (tail : List (String × Bool)) (cl : List String) (k : Kind) : Loss → List LAct
+  | .remote => (remoteEvents tail).flatMap (actsOf k)
+  | .localClose => (localEvents tail cl).flatMap (actsOf k)
+
+def srcProg (k : Kind) : Loss → List LAct := progOf PV.Generated.C13.runTail PV.Generated.C13.closeSeq k
+
 def pollRow (name : String) : Api :=
-  { name, wait := .poll, precheck := false, loopChecksActive := true,
-    prog := fun | .remote => [.setInactive, .setFlag] | .localClose => [.setInactive] }
+  { name, wait := .poll, precheck := false, loopChecksActive := true, prog := srcProg .transportPoll }
 
 def apiTable : List Api := [
   pollRow "open_channel",           -- event.wait(0.1); if not active: raise
@@ -115,25 +170,34 @@ def apiTable : List Api := [
   pollRow "start_client",
   pollRow "auth_wait_for_response", -- event.wait(0.1); if not transport.is_active(): raise
   pollRow "send_user_message",      -- clear_to_send.wait(0.1); if not active: return
-  -- Channel._wait_for_event: self.event.wait(); _unlink()->_set_closed() sets it on both paths
+  -- channel requests: @open_only check; _event_pending() (clear); send; Channel._wait_for_event: self.event.wait();
+  -- _unlink()->_set_closed() sets the event on both paths
   { name := "channel_request", wait := .event, precheck := false, loopChecksActive := false,
-    prog := fun _ => [.setInactive, .setFlag] },
-  -- recv_exit_status: status_event.wait(); set by _set_closed()
+    clear := if PV.Generated.C13.eventClearGuarded then .guarded else .unguarded,
+    prog := srcProg .chanEvent },
+  -- recv_exit_status: status_event.wait(); set by _set_closed(), never cleared
   { name := "recv_exit_status", wait := .event, precheck := false, loopChecksActive := false,
-    prog := fun _ => [.setInactive, .setFlag] },
+    prog := srcProg .chanEvent },
   -- BufferedPipe.read: while empty and not closed: cv.wait(); close() sets closed + notify_all
-  { name := "recv", wait := .cvLoop, precheck := false, loopChecksActive := false,
-    prog := fun _ => [.setInactive, .setFlag, .notify] },
+  { name := "recv", wait := .cvLoop, precheck := false, loopChecksActive := false, prog := srcProg .chanCv },
   -- _wait_for_send_window: while window == 0: if closed: return 0; cv.wait(); _set_closed notifies
-  { name := "send", wait := .cvLoop, precheck := false, loopChecksActive := false,
-    prog := fun _ => [.setInactive, .setFlag, .notify] },
+  { name := "send", wait := .cvLoop, precheck := false, loopChecksActive := false, prog := srcProg .chanCv },
   -- accept (fixed): `elif not self.active: None`; cv notified on every exit of run()
-  { name := "accept", wait := .cvOnce, precheck := true, loopChecksActive := false,
-    prog := fun _ => [.setInactive, .notify] },
+  { name := "accept", wait := .cvOnce, precheck := true, loopChecksActive := false, prog := srcProg .accept },
   -- ensure_session (fixed): while not accepted: if not active: raise; sleep(0.1)
   { name := "ensure_session", wait := .poll, precheck := true, loopChecksActive := true,
-    prog := fun _ => [.setInactive] }
+    prog := srcProg .sessionPoll }
 ]
+
+/-- a channel request as it was: `_event_pending()` cleared the event unconditionally -/
+def channelRequestOld : Api :=
+  { name := "channel_request(old)", wait := .event, precheck := false, loopChecksActive := false,
+    clear := .unguarded, prog := fun _ => [.setFlag, .notify, .setInactive] }
+
+/-- `accept` with the wake-up moved in front of `active = False` in the `run()` tail -/
+def acceptNotifyFirst : Api :=
+  { name := "accept(notify-first)", wait := .cvOnce, precheck := true, loopChecksActive := false,
+    prog := fun _ => [.notify, .setInactive] }
 
 /-- `accept` as it was: no pre-check; `notify()` only inside `if self.active:` of the run() tail,
     which a local close() has already made false -/
